@@ -33,6 +33,18 @@ type c16Ticker struct{ c chan time.Time }
 func (t *c16Ticker) Chan() <-chan time.Time { return t.c }
 func (t *c16Ticker) Stop()                  {}
 
+// rand.Rand.Float64 is Int63()/2^63 (and retries on 1.0): values stay below 2^63-512
+func c16RandJ(r *verifh.Rng) int64 {
+	j := int64(r.Uint64() >> 2)
+	if r.Bool() {
+		j += 1 << 62
+	}
+	if j > (1<<63)-1024 {
+		j = (1 << 63) - 1024
+	}
+	return j
+}
+
 func c16Key(k int) string { return "k" + strconv.Itoa(k) }
 func c16KeyBack(s string) int {
 	return verifh.Atoi(strings.TrimPrefix(s, "k"))
@@ -49,18 +61,18 @@ func c16GenCache(r *verifh.Rng) []verifh.Section {
 		}
 		// default expiry (seconds): short ones so that entries expire inside the section;
 		// some longer than one revolution of the 300-slot wheel
-		exps := []int{1, 2, 3, 5, 10, 20, 299, 300, 301, 650}
+		exps := []int{2, 2, 3, 5, 10, 20, 299, 300, 301, 650}
 		expire := exps[r.Intn(len(exps))]
 		jit := func() int64 {
 			switch r.Intn(4) {
 			case 0:
 				return 0 // factor 1.05
 			case 1:
-				return (1 << 53) - 1 // factor just above 0.95
+				return (1 << 63) - 1024 // largest float64 below 2^63: factor just above 0.95
 			case 2:
-				return 1 << 52 // factor 1.00
+				return 1 << 62 // factor 1.00
 			}
-			return int64(r.Uint64() & ((1 << 53) - 1))
+			return c16RandJ(r)
 		}
 		var ops []string
 		val := 1
@@ -113,7 +125,7 @@ func c16GenCache(r *verifh.Rng) []verifh.Section {
 			k := r.Intn(3)
 			switch r.Intn(4) {
 			case 0:
-				ops = append(ops, fmt.Sprintf("set %d %d %d %d", k, j+1, r.Pick(300000000, 900000000, 1000000000, 1040000000), int64(r.Uint64()&((1<<53)-1))))
+				ops = append(ops, fmt.Sprintf("set %d %d %d %d", k, j+1, r.Pick(300000000, 900000000, 1000000000, 1040000000), c16RandJ(r)))
 			case 1:
 				ops = append(ops, fmt.Sprintf("get %d", k))
 			case 2:
@@ -162,7 +174,9 @@ func c16StartCache(cfg verifh.Cfg) (func(op []string) string, func()) {
 	if klru, ok := c.lruCache.(*keyLru); ok {
 		inner := klru.onEvict
 		klru.onEvict = func(key string) {
+			mu.Lock()
 			evicted = append(evicted, c16KeyBack(key))
+			mu.Unlock()
 			inner(key)
 		}
 	}
@@ -195,26 +209,36 @@ func c16StartCache(cfg verifh.Cfg) (func(op []string) string, func()) {
 		}
 		return strings.Join(ss, ",")
 	}
-	events := func() string {
+	// after the op has settled: keys handed to the wheel's callback (sorted) and keys evicted by LRU overflow
+	// (onEvict also runs for Del/expiry through keyLru.remove: those are not overflow evictions)
+	events := func(delKey int) string {
 		t := settle()
 		mu.Lock()
-		fs := fired
-		fired = nil
+		fs, ev := fired, evicted
+		fired, evicted = nil, nil
 		mu.Unlock()
-		// keys evicted through Del/expiry (keyLru.remove) are not LRU-overflow evictions: only those recorded
-		// while the op itself ran are reported; the caller clears `evicted` after reading
-		return t + " expired=" + keysS(fs, true)
+		var over []int
+		for _, k := range ev {
+			skip := k == delKey
+			for _, f := range fs {
+				if f == k {
+					skip = true
+				}
+			}
+			if !skip {
+				over = append(over, k)
+			}
+		}
+		return "evict=" + keysS(over, false) + " expired=" + keysS(fs, true) + t
 	}
 	step := func(op []string) string {
-		evicted = nil
 		switch {
 		case len(op) == 5 && op[0] == "set":
 			exp := time.Duration(verifh.Atoi64(op[3]))
 			src.next = verifh.Atoi64(op[4])
 			ns := c.unstableExpiry.AroundDuration(exp) // probe: same source value, same float computation
 			c.SetWithExpire(c16Key(verifh.Atoi(op[1])), verifh.Atoi(op[2]), exp)
-			ev := keysS(evicted, false)
-			return fmt.Sprintf("ns=%d evict=%s%s", int64(ns), ev, events())
+			return fmt.Sprintf("ns=%d %s", int64(ns), events(-1))
 		case len(op) == 2 && op[0] == "get":
 			v, ok := c.Get(c16Key(verifh.Atoi(op[1])))
 			if !ok {
@@ -223,7 +247,10 @@ func c16StartCache(cfg verifh.Cfg) (func(op []string) string, func()) {
 			return strconv.Itoa(v.(int)) + settle()
 		case len(op) == 2 && op[0] == "del":
 			c.Del(c16Key(verifh.Atoi(op[1])))
-			return "ok" + settle()
+			if ev := events(verifh.Atoi(op[1])); ev != "evict=- expired=-" {
+				return "ok " + ev
+			}
+			return "ok"
 		case len(op) == 5 && op[0] == "take":
 			src.next = verifh.Atoi64(op[4])
 			ns := c.unstableExpiry.AroundDuration(expire)
@@ -235,15 +262,14 @@ func c16StartCache(cfg verifh.Cfg) (func(op []string) string, func()) {
 				}
 				return verifh.Atoi(op[2]), nil
 			})
-			ev := keysS(evicted, false)
 			res := "err"
 			if err == nil {
 				res = strconv.Itoa(v.(int))
 			}
-			return fmt.Sprintf("%s calls=%d ns=%d evict=%s%s", res, calls, int64(ns), ev, events())
+			return fmt.Sprintf("%s calls=%d ns=%d %s", res, calls, int64(ns), events(-1))
 		case len(op) == 1 && op[0] == "tick":
 			ticker.c <- time.Time{}
-			return strings.TrimSpace(events())
+			return strings.TrimPrefix(events(-1), "evict=- ")
 		case len(op) == 1 && op[0] == "st":
 			t := settle()
 			c.lock.Lock()
